@@ -74,7 +74,7 @@ fn caller(id: usize, ops: usize, seed: u64, dir: &str, log: &Mutex<Vec<String>>,
     let problem = |s: String| { if std::env::var_os("VERBOSE_PANICS").is_some() { eprintln!("caller {id}: {s}"); } log.lock().unwrap().push(format!("caller {id}: {s}")) };
     for k in 0..ops {
         let tag = ((id as u64) << 32) | k as u64;
-        match if rng.chance(1, 16) { 8 } else if rng.chance(1, 12) { 9 } else if rng.chance(1, 10) { 10 } else if rng.chance(1, 3) { 11 + rng.below(4) } else { rng.below(8) } {
+        match if rng.chance(1, 16) { 8 } else if rng.chance(1, 12) { 9 } else if rng.chance(1, 10) { 10 } else if rng.chance(1, 3) { 11 + rng.below(5) } else { rng.below(8) } {
             0 | 1 => {
                 // unique block written at a unique offset, read back
                 let off = (k * 64) as libc::off_t;
@@ -360,6 +360,33 @@ fn caller(id: usize, ops: usize, seed: u64, dir: &str, log: &Mutex<Vec<String>>,
                 let _ = oc::close(None, c);
                 let _ = oc::close(None, a);
                 unsafe { libc::close(l) };
+            }
+            15 => {
+                // a receive that leaves data behind: 64 bytes are queued on a TCP connection and read 16 at a time
+                // (the kernel marks such completions with extra flags; they are results all the same)
+                let (tx, rx) = tcp_pair();
+                let data: Vec<u8> = (0..64).map(|i| (tag.wrapping_mul(11).wrapping_add(i) % 233) as u8).collect();
+                let w = unsafe { libc::write(tx, data.as_ptr().cast(), 64) };
+                std::thread::sleep(Duration::from_millis(2));
+                let mut got = vec![];
+                let mut rets = vec![];
+                for _ in 0..4 {
+                    let mut b = [0u8; 16];
+                    let r = oc::recv(None, rx, b.as_mut_ptr().cast(), 16, 0);
+                    rets.push(r);
+                    if r > 0 {
+                        got.extend_from_slice(&b[..r as usize]);
+                    } else {
+                        break;
+                    }
+                }
+                unsafe {
+                    libc::close(tx);
+                    libc::close(rx);
+                }
+                if w != 64 || got != data {
+                    problem(format!("op {k} recv of 64 queued bytes in pieces of 16 returned {rets:?} errno {}, data {}", errno(), if got == data { "ok" } else { "incomplete / wrong" }));
+                }
             }
             6 => {
                 // negative completion compared with what the native call answers: mkdirat below /sys
